@@ -356,6 +356,20 @@ func (x *Ctx) bisim(r *core.Result, rs *core.RuleStat, what string, impl, ref *l
 // Sibling: the co-execution comparison of internal/fp with strconv (once per run).
 func (x *Ctx) Sibling() (*sibling.SSAReport, error) {
 	if !x.sibDone {
+		sibling.NonNegField = func(fa *ssa.FieldAddr) bool {
+			st := structOfType(fa.X.Type())
+			if st == nil || !isIntKind(st.Field(fa.Field).Type()) {
+				return false
+			}
+			if fn := fa.Parent(); fn == nil || !x.W.InLib(fn) {
+				return false
+			}
+			ok := x.fieldNonNeg(st, fa.Field)
+			if os.Getenv("VERIF_TRACE_NN") != "" {
+				fmt.Println("NONNEG", st.Field(fa.Field).Name(), ok)
+			}
+			return ok
+		}
 		x.sibRep, x.sibErr = sibling.CompareSSA(x.W, func(name string) *ssa.Function { return x.roles()["fp."+name] })
 		x.sibDone = true
 	}
